@@ -7,10 +7,13 @@ open T
 open Pg.C08 (Atom Key)
 
 mutual
-  /-- Every cache in the tree is empty or equals the recomputation on the current contents. -/
+  /-- Every memo in the tree (`sym_nondefault`, `sym_missing`) is empty or equals the recomputation on
+  the current contents, against the value specs. -/
   def Fresh : T → Prop
     | .leaf _ => True
-    | .node m _ items => (m.cache = none ∨ m.cache = some (deriveItems items)) ∧ FreshItems items
+    | .node m kd items =>
+      ((m.cache = none ∨ m.cache = some (derive (.node m kd items))) ∧
+       (m.miss = none ∨ m.miss = some (deriveMiss (.node m kd items)))) ∧ FreshItems items
   def FreshItems : List (Key × T) → Prop
     | [] => True
     | (_, t) :: rest => Fresh t ∧ FreshItems rest
